@@ -5,7 +5,28 @@ long ghost_e1, ghost_e2;   /* names of the two masked components at position gho
  * component-wise re-masking of the input card with the secret's exponent */
 void SchindelhauerTMCG__TMCG_MaskCard(SchindelhauerTMCG *self, VTMF_Card *c, VTMF_Card *cc, VTMF_CardSecret *cs,
                                       BarnettSmartVTMF_dlog *vtmf, _Bool TimingAttackProtection)
-__CPROVER_requires(__CPROVER_r_ok(c, sizeof(*c)) && __CPROVER_r_ok(cs, sizeof(*cs)) && __CPROVER_w_ok(cc, sizeof(*cc)))
-__CPROVER_assigns(V(cc->c_1), V(cc->c_2))
-__CPROVER_ensures(V(cc->c_1) == MASK1(V(c->c_1), V(cs->r)) && V(cc->c_2) == MASK2(V(c->c_2), V(cs->r)))
+{
+  (void)self; (void)TimingAttackProtection;
+  long a = MASK1(V(c->c_1), V(cs->r)), b = MASK2(V(c->c_2), V(cs->r));
+  cc->c_1->v = a; cc->c_2->v = b;
+}
+/* R13: TMCG_StackSecret<>::find_position is std::find_if / std::bind2nd / std::distance over the pairs.
+ * TRUSTED, stated from ISO C++: the first position whose .first equals index, else size().  The result is
+ * additionally named by the never-assigned ghost array ghost_pos[] (Skolem function for "index occurs at
+ * some position"); sound while the container is unchanged between the calls of one loop. */
+size_t ghost_pos[MAXN];
+size_t TMCG_StackSecret_VTMF_CardSecret__find_position(TMCG_StackSecret_VTMF_CardSecret *self, size_t index)
+__CPROVER_requires(__CPROVER_r_ok(self, sizeof(*self)) && self->stack.size <= MAXN && index < MAXN)
+__CPROVER_assigns()
+__CPROVER_ensures(__CPROVER_return_value <= self->stack.size)
+__CPROVER_ensures(__CPROVER_return_value < self->stack.size ==> self->stack.data[__CPROVER_return_value].first == index)
+__CPROVER_ensures(__CPROVER_return_value == self->stack.size ==> ALL(fpj, fpj < self->stack.size ==> self->stack.data[fpj].first != index))
+__CPROVER_ensures(__CPROVER_return_value == ghost_pos[index])
+;
+/* card-secret sub-import: arbitrary outcome */
+static inline _Bool VTMF_CardSecret__import(VTMF_CardSecret *cs, str_t s) { (void)s; cs->r->v = (long)nondet_ulong(); return nondet_bool(); }
+/* fresh masking exponent of one card (BarnettSmartVTMF_dlog::MaskingValue): arbitrary value */
+void SchindelhauerTMCG__TMCG_CreateCardSecret_vtmf(SchindelhauerTMCG *self, VTMF_CardSecret *cs, BarnettSmartVTMF_dlog *vtmf)
+__CPROVER_requires(__CPROVER_w_ok(cs, sizeof(*cs)))
+__CPROVER_assigns(V(cs->r))
 ;
